@@ -1,0 +1,18 @@
+//go:build verif
+
+package keyed
+
+// VerifHook, when set, is called at every schedule point of this package:
+//
+//	site 0: top of runningRoutine.execute, before it waits for its predecessor (obj: the key)
+//	site 1: runningRoutine.execute after the routine returned, before k.mtx is taken (obj: the key)
+//	site 2: retry timer callback, before k.mtx is taken (obj: the key)
+//	site 3: delayed-removal timer callback, before k.mtx is taken (obj: the key)
+//	site 4: KeyedRef.Release after the flag swap, before rc.mtx is taken (obj: the key)
+var VerifHook func(site int, obj any)
+
+func verifPoint(site int, obj any) {
+	if h := VerifHook; h != nil {
+		h(site, obj)
+	}
+}
